@@ -118,10 +118,23 @@ def run_driver(requests, timeout=3000):
     if not os.path.exists(DRV):
         raise HarnessError("driver not built: " + DRV)
     data = "".join(json.dumps(r, separators=(",", ":")) + "\n" for r in requests)
-    p = subprocess.run([DRV], input=data, stdout=subprocess.PIPE, stderr=subprocess.PIPE,
-                       text=True, timeout=timeout)
-    if p.returncode != 0:
-        raise HarnessError("driver exited %d: %s" % (p.returncode, p.stderr[-500:]))
+    # Through files, not pipes: a worker pool of the calling check may fork a replacement worker while
+    # a pipe to the driver is open; the child inherits the write end, the driver never sees end of
+    # input and the check hangs.  Regular files have no such end-of-file dependence.
+    import tempfile
+    with tempfile.TemporaryDirectory(prefix="hephdrv_") as td:
+        fin, fout, ferr = (os.path.join(td, n) for n in ("in", "out", "err"))
+        with open(fin, "w", encoding="utf-8", newline="") as f:
+            f.write(data)
+        with open(fin, "rb") as i, open(fout, "wb") as o, open(ferr, "wb") as e:
+            rc = subprocess.run([DRV], stdin=i, stdout=o, stderr=e, timeout=timeout, close_fds=True).returncode
+        out = open(fout, encoding="utf-8", newline="").read()
+        err = open(ferr, encoding="utf-8", errors="replace").read()
+
+    class _P:
+        pass
+    p = _P()
+    p.returncode, p.stdout, p.stderr = rc, out, err
     # not splitlines(): answers may carry U+2028, U+0085 ... raw inside JSON strings
     lines = p.stdout.split("\n")
     if lines and lines[-1] == "":
